@@ -15,12 +15,27 @@ M1_NOTE = ("trusted: Lean kernel; axioms propext / Classical.choice / Quot.sound
            "evidence); the unverified Python harness and its generators; CPython 3.12 asyncio is modelled, not verified; "
            "user code is limited to harness scripts (one suspension point per worker, plain/coroutine/raising callbacks, "
            "hook alphabet without set_size)")
+M2 = ("Lean 4 theorems about the queue machine M2 (lean/Taskpool/Model/Queue.lean), proved for all histories by a "
+      "refinement argument; tied to /repo on every run by lock-step execution of the real Queue under the stepped loop "
+      "against the compiled model (FIFO and non-FIFO schedules, exhaustive small scope + generated histories)")
+M2_NOTE = ("trusted: Lean kernel; axioms propext / Classical.choice / Quot.sound only; the unverified Python harness; "
+           "asyncio.Queue's own put/get machinery is modelled, not verified")
+M3 = ("Lean 4 theorems about the control machine M3 (lean/Taskpool/Model/Control*.lean: member table -> command table, "
+      "three-phase command parser, dispatch, reply rule, session pump, server life cycle), proved for all well-formed "
+      "tables, all token lists and all session/server histories; tied to /repo on every run by extracting the member "
+      "tables from the real classes (inspect), translation validation of every generated command line (model verdict "
+      "applied to a twin pool vs a real ControlSession), in-memory multi-session runs and real TCP/Unix servers with raw "
+      "clients and the bundled CLI client")
+M3_NOTE = ("trusted: Lean kernel; axioms propext / Classical.choice / Quot.sound only; the unverified Python harness; "
+           "argparse's lexing/formatting, inspect, json, ast.literal_eval, asyncio streams/Server and the OS socket layer "
+           "are modelled or sampled, not verified (partial: help text, argparse's verdict on arbitrary strings and kernel "
+           "timing are sampled through the real code)")
 TEXT = {
-    "C01": "invariant by induction (slot conservation + phase + registry invariant) => live workers and num_running+num_cancelled <= size in every reachable state; idle is_full clause is a monitor",
-    "C02": "slot conservation in every reachable state; accounting free+granted+running+cancelled=size (hypothesis lost=false, watched by the driver bit)",
-    "C03": "registry invariant: one registry per id, meaning of each registry (partial: finite size, no pool_size assignment); callback counts are monitors",
+    "C01": "invariant by induction (slot conservation + phase + registry invariant) => live workers and num_running+num_cancelled <= size in every reachable state, unbounded pool never full, is_full at capacity; the converse idle clause is a monitor",
+    "C02": "slot conservation in every reachable state; accounting free+granted+running+cancelled=size, with the ghost hypothesis lost=false discharged for every history without gather_and_close (concurrent flushes included)",
+    "C03": "registry and callback life-cycle invariants for every history (one registry per id, callbacks at most once / in order / at the right moment); exactly-once and completeness with lost=false, discharged for histories without gather_and_close",
     "C04": "loop accounting of the apply/start spawner for every n and pool state (created+skipped+remaining conserved; done means all)",
-    "C05": "loop accounting of the map consumer (in order, lazy, one element in hand at most; partial: iterator makes no pool calls); concurrency/work conservation are monitors",
+    "C05": "books of the per-call semaphore for every history => never more than num_concurrent tasks of a call; loop accounting of the map consumer (in order, lazy, one element in hand at most; partial: iterator makes no pool calls); work conservation is a monitor",
     "C06": "decision logic stated outright: all-or-nothing with full state equality, classification, exact frame and delivery",
     "C07": "what cancel_group/cancel_all do (frame, forgotten name) and what a spawner does at its next step for each placement of the cancellation",
     "C08": "step-level theorems of the stages of gather_and_close (collecting gather waits for the last child, closing step, until_closed); whole-history waiting is a monitor",
@@ -28,11 +43,19 @@ TEXT = {
     "C10": "get_group_ids spec, freshness of generated names (pigeonhole; assumes decimal rendering injective), membership of new tasks",
     "C11": "ids are list indices: new id = number of tasks created, never reused, pools independent, class-level indices distinct for every history",
     "C12": "a failing worker takes the same ending path (slot released, filed as ended); collecting gathers cannot raise; reported exception is a child's",
-    "C13": "exact effect of flush's last step (only snapshotted ids are forgotten), collecting flush cannot raise",
+    "C13": "flush never forgets a task that still holds its slot, for every history without gather_and_close and any number of overlapping flushes (FlushOK invariant); exact effect of flush's last step; collecting flush cannot raise",
     "C14": "stop(n) = cancel of the last min(n,running) ids newest first; never raises; others unaffected",
     "C15": "as-is semantics proved exactly + closed refutations of the three violated clauses (known findings R5), negative value rejected",
     "C20": "refinement proof over all histories of the queue machine: exactly-once marking, unfinished=puts-exits, join iff",
+    "C16": "command surface = public functions and properties, dash-naming injective, flag assignment never claims -h and never clashes (parser can be built), handshake reply, help everywhere",
+    "C17": "round trip: for every public method, every option subset in short or long form before or after the positionals, the parse is the call with the expected namespace (defaults = the method's own); dispatch split and reply rule",
+    "C18": "one reply per non-blank line (counting invariant over all session histories), buffer empty between commands, errors and help change nothing, sessions independent",
+    "C19": "server life-cycle machine: serving until stop, done iff stop requested and all clients gone, refuses after stop, disconnects isolated, socket file removed",
 }
+BASE = {pid: (M1, M1_NOTE) for pid in TEXT}
+BASE["C20"] = (M2, M2_NOTE)
+for _p in ("C16", "C17", "C18", "C19"):
+    BASE[_p] = (M3, M3_NOTE)
 TECH = {k: "Lean 4 proof over an executable model (induction over histories / decision logic) + lock-step correspondence with the real code" for k in TEXT}
 checks, na = [], []
 for p in props:
@@ -45,8 +68,8 @@ for p in props:
             "evidence_file": f"evidence/{pid}.json",
             "replay_cmd_template": f"./check {pid} --replay {{path}}",
             "engine": "lean-model-correspondence",
-            "level_claimed": {"category": "proof", "text": M1 + ". " + TEXT.get(pid, ""), "design_ref": "DESIGN.md §5 " + pid},
-            "level_note": M1_NOTE,
+            "level_claimed": {"category": "proof", "text": BASE[pid][0] + ". " + TEXT.get(pid, ""), "design_ref": "DESIGN.md §5 " + pid},
+            "level_note": BASE[pid][1],
             "technique": TECH.get(pid, "Lean 4 proof over an executable model + differential correspondence check"),
         })
     else:
